@@ -45,10 +45,74 @@ def aggregation(rep, tier):
     rep.evaluations += len(recs)
 
 
+# ---- failed()/valid() report the verdict as of the current line -------------------------------------------------------------
+REPORT_JUDGED = {"valid", "final_valid", "votes", "vars", "final_vars", "returned", "final_returned"}
+
+
+def _report_case(args):
+    """a csvpath whose only variables are reports of the verdict: conditions that fail the file (fail(), fail_and_stop(), also after a
+    skip()/stop() condition) and, at any position among them, failed()/valid() as match components, pushed line by line, assigned,
+    or guarding a push of the line number"""
+    import random
+    from lib import gen, lang as L, runtrace
+
+    seed, tid = args
+    rng = random.Random(seed * 1000003 + tid)
+    fs = L.FileSpec(rng, max_rows=8, blank_p=0.15)
+    AND = rng.random() < 0.7
+    g = gen.Gen(rng, fs, AND=AND, groups=("core",))
+
+    def cond():
+        c = g.boolean(1)
+        return g.href_any() if c["k"] == "term" else c
+
+    comps = [L.when(cond(), L.fn(rng.choice(["fail", "fail", "fail_and_stop"]))) for _ in range(rng.choice([1, 1, 2]))]
+    if rng.random() < 0.3:
+        c = cond()
+        comps.append(L.fn(rng.choice(["skip", "stop"]), L.fn("exists", c) if c["k"] in ("hdr", "var") else c))
+    if rng.random() < 0.3:
+        comps.append(cond())
+    for _ in range(rng.choice([1, 2, 2, 3])):
+        f = L.fn(rng.choice(["valid", "valid", "failed"]))
+        comps.append(rng.choice([f, L.fn("push", L.term("vs"), f), L.assign(L.var(g.fresh("x")), f),
+                                 L.when(f, L.fn("push", L.term("at"), L.fn("line_number")))]))
+    rng.shuffle(comps)
+    prog = {"scan": g.scan(fs.first_data_line()), "comps": comps, "meta": [], "_adjacent_refs": False, "_rewrites": False}
+    prog["initVars"] = L.init_vars(prog)
+    case = {"tid": tid, "prog": prog, "records": fs.records,
+            "cfg": {"AND": AND, "noMatches": False, "keepUnmatched": False, "collecting": True, "noRun": False, "nexts": 0}}
+    return runtrace.run_case(case, "collect")
+
+
+def verdict_reports(rep, tier):
+    from lib import runtrace
+
+    n = 500 if tier == "quick" else 8000
+    outs = common.pmap(_report_case, [(common.seed() + 4040, i) for i in range(n)], initializer=scratch.enter_scratch)
+    recs = [r for r, _ in outs if r is not None]
+    infos = {r["tid"]: i for r, i in outs if r is not None}
+    res, v = runtrace.validate(recs)
+    rep.add_tlc("RunTrace: failed()/valid() observed line by line around conditional fail()", res)
+    rejected = [r for r in recs if v[r["tid"]][0] != "ok"]
+    if rejected:
+        res2, v2 = runtrace.validate(rejected, dev=("AboveCellsAsText", "LtIsLe"))
+        rep.add_tlc("RunTrace: the same under the deviations of C01's listed findings", res2)
+        for r in rejected:
+            verdict, at, exp = v2[r["tid"]]
+            if verdict != "ok" and verdict.split(":")[0] in REPORT_JUDGED:
+                info = infos[r["tid"]]
+                rep.violation({"kind": "verdict-report-rejected", "field": verdict, "at_event": at, "csvpath": info["csvpath"], "file_records": info["records"],
+                               "expected_by_spec": exp, "impl_event": info["events"][at - 1] if 0 < at <= len(info["events"]) else None})
+    rep.extra["verdict_report_runs"] = len(recs)
+    rep.extra["verdict_report_runs_that_end_invalid"] = sum(1 for r in recs if not r["final"]["valid"])
+    rep.evaluations += len(recs)
+    rep.traces += len(recs)
+
+
 def main(tier):
     n = 700 if tier == "quick" else 12000
     return runfam.run(PID, tier, groups=("core", "control", "validity"), judged=JUDGED, ncases=n, seed_salt=400,
-                      pre=lambda rep: (aggregation(rep, tier), mcrun.run_pool(rep, tier, {"valid"}, PID), repotraces.run(rep, tier, JUDGED, PID),
+                      pre=lambda rep: (aggregation(rep, tier), verdict_reports(rep, tier), mcrun.run_pool(rep, tier, {"valid"}, PID), repotraces.run(rep, tier, JUDGED, PID),
                                        jointrun.run(rep, tier, {"valid", "final_valid", "all_valid"}, PID, n=80 if tier == "quick" else 2500),
                                        mcgroup.run_pool(rep, tier, {"valid", "allValid"}, PID),
                                        # "... or an error is handled under a policy that includes 'fail', and once False it never returns to True"
